@@ -125,16 +125,25 @@ def openW (fs : FS) (overwrite : Bool) (plan : Fault) : FS × Option Err :=
     if "IsADirectoryError" ∈ MontePyVerif.Gen.WriteOrder.openGuards then (fs, some .isADirectory) else create
   | .absent => create
 
+/-- the text can be encoded by the handle (`encoding="ascii"`, the default of `open`) -/
+def encodable (line : String) : Bool :=
+  MontePyVerif.Gen.WriteOrder.openEncoding != "ascii" || line.toList.all (fun c => c.toNat < 128)
+
 /-- input_file.py:MCNP_InputFile.write — `self._lineno += to_write.count("\n")`; `self._fh.write(to_write)`.
-    The text is `line ++ "\n"`; the model stores the line. -/
+    The text is `line ++ "\n"`; the model stores the line.  A character outside the encoding makes the
+    text layer raise UnicodeEncodeError before anything of this text is buffered. -/
 def doWrite (plan : Fault) (w : W) (line : String) : W × Option Err :=
+  let full : W × Option Err :=
+    if encodable line then
+      ({ w with fs := fsAppendTmp w.fs line, nwr := w.nwr + 1, lineno := w.lineno + 1 }, none)
+    else ({ w with nwr := w.nwr + 1, lineno := w.lineno + 1 }, some (.other "UnicodeEncodeError"))
   match plan with
   | .write k sent =>
     if k = w.nwr then
       ({ w with fs := fsAppendTmp w.fs (String.ofList (line.toList.take sent)), nwr := w.nwr + 1, lineno := w.lineno + 1 },
        some .osError)
-    else ({ w with fs := fsAppendTmp w.fs line, nwr := w.nwr + 1, lineno := w.lineno + 1 }, none)
-  | _ => ({ w with fs := fsAppendTmp w.fs line, nwr := w.nwr + 1, lineno := w.lineno + 1 }, none)
+    else full
+  | _ => full
 
 /-- input_file.py:MCNP_InputFile.__exit__ — close; on a clean exit `os.replace`; `finally: _discard_temporary()`.
     `exc` is the exception propagating out of the `with` body. An exception raised by close or replace
@@ -242,10 +251,10 @@ def writeToFile (p : Problem) (fs : FS) (overwrite : Bool) (plan : Fault) : Opti
 
 /-! ## the complete output, in closed form (what the theorems compare the destination with) -/
 
-/-- all lines of a list of objects, `none` if one of them raises -/
+/-- all lines of a list of objects, `none` if one of them raises or a line cannot be encoded -/
 def linesOf : List Fmt → Option (List String)
   | [] => some []
-  | .lines ls :: t => (linesOf t).map (ls ++ ·)
+  | .lines ls :: t => if ls.all encodable then (linesOf t).map (ls ++ ·) else none
   | .raises _ :: _ => none
 
 def segLines (p : Problem) : Seg → Option (List String)
